@@ -590,6 +590,8 @@ def make_offdomain_cases(ctx, pool, n_streams):
                 if rng.random() < 0.6:
                     n = max(0, len(m) + rng.choice([-9, -4, -1, 1, 2, 4, 5, 30] * 4 + [-len(m)]))
                     m = m[:4] + n.to_bytes(3, 'big') + m[7:]
+                    if rng.random() < 0.5:      # ... and make the full decode fail: the recovery path sees the wrong length
+                        m = damage(m, rng.choice(['undef-element', 'undef-sequence']), rng)
                 parts.append(m)
                 parts.append(rng.choice([b'', b'', b'\r\r\n', b'BUF']))
             parts.append(rng.choice(small)['bytes'])
